@@ -322,16 +322,21 @@ def step_exact(st):
 # ----------------------------------------------------------------------------------------------
 
 def gen_universe(rng, quick, flavour):
-    """flavour 'states': only MPS (N up to 7 for every local space); otherwise the dense MPO ((d*d)^N entries) caps N"""
+    """flavour 'states': only MPS (N up to 7 for every local space); otherwise the dense MPO ((d*d)^N entries) caps N.
+    flavour 'sectors' (operators between charge sectors) needs a symmetry."""
     cls, sym, kw = rng.choice(UNIVERSES)
+    if flavour == "sectors":
+        while sym == "dense":
+            cls, sym, kw = rng.choice(UNIVERSES)
     probe = Universe({"ops": cls, "sym": sym, "kw": kw, "N": 1})
     d = probe.d
     if flavour == "states":
         nmax = 7 if (not quick or d <= 3) else 6
     else:
         cap = 2 ** 14 if quick else 2 ** 18
-        nmax = min(7 if flavour == "mps" else 5, int(math.log(cap) / math.log(d * d) + 1e-9))
-    N = rng.choice([1, 2, 2, 3, 3, 4, 4, 5, 6, 7])
+        nmax = min(7 if flavour in ("mps", "sectors") else 5, int(math.log(cap) / math.log(d * d) + 1e-9))
+    # the corner cases N = 1 (first site == last site) and N = 2 carry extra weight
+    N = rng.choice([1, 1, 2, 2, 2, 3, 3, 4, 4, 5, 6, 7])
     N = max(1, min(N, nmax))
     return {"ops": cls, "sym": sym, "kw": kw, "N": N}
 
@@ -349,7 +354,7 @@ def total_charge(U, ts):
     return tuple(int(v) for v in sym.add_charges(*[tuple(t) for t in ts]))
 
 
-def gen_leaf(U, rng, kind, n_target=None, ts=None):
+def gen_leaf(U, rng, kind, n_target=None, ts=None, qs=None):
     leaf = {"kind": kind, "seed": rng.randrange(2 ** 31), "cplx": rng.random() < 0.3, "factor": list(rng.choice(FACTORS))}
     if kind == "product_mps":
         leaf["ts"] = [list(t) for t in ts]
@@ -357,6 +362,8 @@ def gen_leaf(U, rng, kind, n_target=None, ts=None):
         leaf["n"] = list(n_target)
         leaf["D"] = rng.choice([1, 2, 3, 4, 5])
         leaf["sigma"] = rng.choice([1, 2])
+    elif kind == "product_mpo" and qs is not None:
+        leaf["qs"] = [[int(v) for v in q] for q in qs]      # prescribed local operator charges
     elif kind == "product_mpo":
         # local operators of (mostly) zero charge; some charged ones
         qs = []
@@ -376,13 +383,33 @@ def gen_leaf(U, rng, kind, n_target=None, ts=None):
     return leaf
 
 
+def pick(rng, cand, p_recent=0.35, k=3):
+    """operand choice biased towards the most recent nodes: results get consumed, expression trees grow deep"""
+    if len(cand) > k and rng.random() < p_recent:
+        return rng.choice(cand[-k:])
+    return rng.choice(cand)
+
+
+STEP_KINDS = ["add", "add", "add", "smul", "smul", "matmul", "matmul", "matmul", "conj", "T", "H", "rev", "copy",
+              "setfactor", "plus", "sub", "neg", "div", "rmul", "clone", "shallow"]
+# a step that consumes the result of the previous step: mostly combinations with OTHER (differently produced) objects
+CHAIN_KINDS = ["add", "add", "plus", "sub", "matmul", "matmul", "smul", "conj", "H", "rev", "neg", "copy"]
+# operators between charge sectors: conjugations / transpositions / reversal of charged operators carry extra weight
+SECTOR_KINDS = STEP_KINDS + ["conj", "conj", "H", "H", "H", "T", "rev", "rev"]
+
+
 def gen_case(rng, quick, flavour):
-    """returns a replayable case spec (dict).  flavour: 'mps' (states + operators) or 'mpo' (operator algebra)."""
+    """returns a replayable case spec (dict).  flavour: 'mps' (states + operators), 'mpo' (operator algebra), 'states' (MPS only),
+    'sectors' (charged operators mapping one charge sector to another, with states in both sectors)."""
     uni = gen_universe(rng, quick, flavour)
     U = Universe(uni)
     N = U.N
+    sym = U.cfg.sym
     case = {"kind": "prog", "uni": uni, "flavour": flavour, "leaves": [], "steps": [], "obs": []}
     objs, keys = [], []
+
+    def blockless(x):
+        return any(x[n].size == 0 for n in range(N))
 
     def push_leaf(leaf):
         try:
@@ -397,27 +424,47 @@ def gen_case(rng, quick, flavour):
     # ---- leaves ---------------------------------------------------------------------------
     ts = rand_charge(U, rng)
     ntot = total_charge(U, ts)
-    n_mps = rng.choice([2, 3, 3]) if flavour in ("mps", "states") else rng.choice([0, 1])
-    for k in range(n_mps):
-        r = rng.random()
-        if r < 0.3:
-            # another product configuration with the same total charge: permute the charges
-            ts2 = list(ts)
-            rng.shuffle(ts2)
-            push_leaf(gen_leaf(U, rng, "product_mps", ts=ts2))
-        else:
-            if push_leaf(gen_leaf(U, rng, "random_mps", n_target=ntot)) is None:
-                push_leaf(gen_leaf(U, rng, "product_mps", ts=ts))
-    n_mpo = 0 if flavour == "states" else rng.choice([1, 2, 2]) if flavour == "mps" else rng.choice([2, 3])
-    for k in range(n_mpo):
-        r = rng.random()
-        if r < 0.35:
-            if push_leaf(gen_leaf(U, rng, "product_mpo")) is None:
-                push_leaf(gen_leaf(U, rng, "random_mpo"))
-        else:
+    if flavour == "sectors":
+        # two product configurations ts -> ts2; the local operator charges qs map one onto the other, so that the charged
+        # product operator does not annihilate the sector of ts; states are drawn in both sectors
+        ts2 = rand_charge(U, rng)
+        if total_charge(U, ts2) == ntot:
+            ts2 = rand_charge(U, rng)
+        ntot2 = total_charge(U, ts2)
+        qs = [[int(v) for v in sym.add_charges(tuple(b), tuple(a), signatures=(1, -1), new_signature=1)] for a, b in zip(ts, ts2)]
+        for (cfgs, nn) in ((ts, ntot), (ts2, ntot2)):
+            for k in range(rng.choice([1, 1, 2])):
+                if rng.random() < 0.3 or push_leaf(gen_leaf(U, rng, "random_mps", n_target=nn)) is None:
+                    push_leaf(gen_leaf(U, rng, "product_mps", ts=cfgs))
+        push_leaf(gen_leaf(U, rng, "product_mpo", qs=qs))
+        if rng.random() < 0.6:
+            qs2 = list(qs)            # same total charge, located elsewhere: can be added to the first one (D = 2 charged MPO)
+            rng.shuffle(qs2)
+            push_leaf(gen_leaf(U, rng, "product_mpo", qs=qs2))
+        if rng.random() < 0.5:
             push_leaf(gen_leaf(U, rng, "random_mpo"))
-    if rng.random() < 0.35 and flavour == "mps":
-        push_leaf(gen_leaf(U, rng, "pbc"))
+    else:
+        n_mps = rng.choice([2, 3, 3]) if flavour in ("mps", "states") else rng.choice([0, 1])
+        for k in range(n_mps):
+            r = rng.random()
+            if r < 0.3:
+                # another product configuration with the same total charge: permute the charges
+                ts2 = list(ts)
+                rng.shuffle(ts2)
+                push_leaf(gen_leaf(U, rng, "product_mps", ts=ts2))
+            else:
+                if push_leaf(gen_leaf(U, rng, "random_mps", n_target=ntot)) is None:
+                    push_leaf(gen_leaf(U, rng, "product_mps", ts=ts))
+        n_mpo = 0 if flavour == "states" else rng.choice([1, 2, 2]) if flavour == "mps" else rng.choice([2, 3])
+        for k in range(n_mpo):
+            r = rng.random()
+            if r < 0.35:
+                if push_leaf(gen_leaf(U, rng, "product_mpo")) is None:
+                    push_leaf(gen_leaf(U, rng, "random_mpo"))
+            else:
+                push_leaf(gen_leaf(U, rng, "random_mpo"))
+        if rng.random() < 0.35 and flavour == "mps":
+            push_leaf(gen_leaf(U, rng, "pbc"))
     nleaves = len(objs)
     if nleaves == 0:
         return None
@@ -425,95 +472,150 @@ def gen_case(rng, quick, flavour):
     # ---- steps ----------------------------------------------------------------------------
     nsteps = rng.randint(3, 7 if quick else 10)
     maxD = 40 if quick else 90
-    for _ in range(nsteps):
-        cand = [i for i, k in enumerate(keys) if k != ("pbc",)]
-        if not cand:
-            break
-        f = rng.choice(["add", "add", "add", "smul", "smul", "matmul", "matmul", "matmul", "conj", "T", "H", "rev", "copy",
-                        "setfactor", "plus", "sub", "neg", "div", "rmul", "clone", "shallow"])
-        st = None
-        if f in ("add", "plus", "sub"):
-            i = rng.choice(cand)
-            same = [j for j in cand if keys[j] == keys[i]]
-            if f == "add":
-                m = rng.choice([1, 2, 2, 3, 3, 4])
-                ids = [i] + [rng.choice(same) for _ in range(m - 1)]
-                st = {"f": "add", "a": ids, "amps": [list(rng.choice(AMPS)) for _ in ids]}
-            else:
-                st = {"f": f, "a": [i, rng.choice(same)]}
-        elif f in ("smul", "rmul", "div"):
-            c = list(rng.choice(SCALARS))
-            if f == "div" and c[0] == 0 and c[1] == 0:
-                c = [2, 0, 1]
-            st = {"f": f, "a": [rng.choice(cand)], "c": c}
-            if f == "rmul":
-                st["np"] = rng.random() < 0.5
-        elif f == "matmul":
-            As = [i for i in cand if objs[i].nr_phys == 2]
-            rng.shuffle(As)
-            for i in As:
-                Bs = [j for j in cand if objs[j][0].s[1] == -objs[i][0].s[3]]
-                if flavour == "mps" and rng.random() < 0.7:
-                    Bs = [j for j in Bs if objs[j].nr_phys == 1] or Bs
-                if Bs:
-                    st = {"f": "matmul", "a": [i, rng.choice(Bs)], "opr": rng.random() < 0.7}
-                    break
-        elif f in ("T", "H"):
-            st = {"f": f, "a": [rng.choice(cand)], "prop": rng.random() < 0.6}
-        elif f == "setfactor":
-            st = {"f": f, "a": [rng.choice(cand)], "fac": list(rng.choice(FACTORS))}
-        else:
-            st = {"f": f, "a": [rng.choice(cand)]}
-        if st is None:
-            continue
+    prev = None       # node produced by the previous step
+
+    def try_step(st):
+        """execute a proposed (valid by construction) step on the real objects; returns the new node id, None if dropped"""
         try:
             x = real_step(st, objs)
             if max(x.get_bond_dimensions()) > maxD:
-                continue
+                return None
             k = key_of(x)
         except Exception as e:  # generator only proposes valid steps; a crash here is reported by run_case
             case["steps"].append(st)
             case["gen_exception"] = f"{type(e).__name__}: {e}"
-            break
+            return None
         case["steps"].append(st)
         objs.append(x)
         keys.append(k)
+        return len(objs) - 1
+
+    for _ in range(nsteps):
+        cand = [i for i, k in enumerate(keys) if k != ("pbc",)]
+        if not cand:
+            break
+        force = prev if (prev is not None and rng.random() < 0.5) else None
+        f = rng.choice(CHAIN_KINDS if force is not None else SECTOR_KINDS if flavour == "sectors" else STEP_KINDS)
+        one = (lambda: force) if force is not None else (lambda: pick(rng, cand))
+        st = None
+        if f in ("add", "plus", "sub"):
+            i = one()
+            same = [j for j in cand if keys[j] == keys[i]]
+            other = [j for j in same if j != i] or same
+            if f == "add":
+                m = rng.choice([1, 2, 2, 3, 3, 4])
+                ids = [i] + [rng.choice(other if (force is not None and n == 0) else same) for n in range(m - 1)]
+                if force is not None:
+                    rng.shuffle(ids)
+                st = {"f": "add", "a": ids, "amps": [list(rng.choice(AMPS)) for _ in ids]}
+            else:
+                j = rng.choice(other if rng.random() < 0.7 else same)
+                st = {"f": f, "a": [i, j] if rng.random() < 0.7 else [j, i]}
+        elif f in ("smul", "rmul", "div"):
+            c = list(rng.choice(SCALARS))
+            if f == "div" and c[0] == 0 and c[1] == 0:
+                c = [2, 0, 1]
+            st = {"f": f, "a": [one()], "c": c}
+            if f == "rmul":
+                st["np"] = rng.random() < 0.5
+        elif f == "matmul":
+            if force is not None and (objs[force].nr_phys == 1 or rng.random() < 0.5):
+                # the previous result as the right operand
+                As = [i for i in cand if objs[i].nr_phys == 2 and objs[i][0].s[3] == -objs[force][0].s[1]]
+                if As:
+                    st = {"f": "matmul", "a": [pick(rng, As), force], "opr": rng.random() < 0.7}
+            if st is None:
+                As = [i for i in cand if objs[i].nr_phys == 2]
+                rng.shuffle(As)
+                if force is not None and objs[force].nr_phys == 2:
+                    As = [force]
+                for i in As:
+                    Bs = [j for j in cand if objs[j][0].s[1] == -objs[i][0].s[3]]
+                    if flavour in ("mps", "sectors") and rng.random() < 0.7:
+                        Bs = [j for j in Bs if objs[j].nr_phys == 1] or Bs
+                    if Bs:
+                        st = {"f": "matmul", "a": [i, rng.choice(Bs)], "opr": rng.random() < 0.7}
+                        break
+        elif f in ("T", "H"):
+            st = {"f": f, "a": [one()], "prop": rng.random() < 0.6}
+        elif f == "setfactor":
+            st = {"f": f, "a": [one()], "fac": list(rng.choice(FACTORS))}
+        else:
+            st = {"f": f, "a": [one()]}
+        if st is None:
+            continue
+        new = try_step(st)
+        if "gen_exception" in case:
+            break
+        if new is not None and blockless(objs[new]) and rng.random() < 0.8:
+            # a product that vanishes by symmetry (no block at all): keep only a few of those
+            case["steps"].pop(); objs.pop(); keys.pop()
+            new = None
+        prev = new
 
     # ---- observables --------------------------------------------------------------------------
     ids = [i for i, k in enumerate(keys) if k != ("pbc",)]
     pbcs = [i for i, k in enumerate(keys) if k == ("pbc",)]
-    nobs = rng.randint(3, 6)
+    nobs = rng.randint(4, 7) if flavour == "sectors" else rng.randint(3, 6)
+    measured = set()
+
+    def mpo_observable():
+        """<bra| op |ket>: the operator is chosen FIRST (preferring results of steps that were not measured yet), then a ket it can act
+        on (a conjugated copy is appended when no node has the matching signature), then a bra in the sector of op@ket among the
+        existing nodes; if there is none (charged operators), the product op@ket itself is appended as a node and used as bra."""
+        opsn = [o for o in ids if objs[o].nr_phys == 2 and not blockless(objs[o])]
+        if not opsn:
+            return False
+        fresh = [o for o in opsn if o >= nleaves and o not in measured]
+        o = rng.choice(fresh) if (fresh and rng.random() < 0.6) else pick(rng, opsn)
+        kets = [j for j in ids if objs[j][0].s[1] == -objs[o][0].s[3] and not blockless(objs[j])]
+        if flavour != "mpo" and rng.random() < 0.75:
+            kets = [j for j in kets if objs[j].nr_phys == 1] or kets
+        if not kets or (all(objs[j].nr_phys == 2 for j in kets) and flavour != "mpo" and rng.random() < 0.7):
+            cj = [j for j in ids if objs[j][0].s[1] == objs[o][0].s[3] and not blockless(objs[j])]
+            cj = [j for j in cj if objs[j].nr_phys == 1] or cj
+            if cj:
+                jn = try_step({"f": "conj", "a": [pick(rng, cj)]})
+                if jn is not None:
+                    ids.append(jn)
+                    kets = [jn]
+        rng.shuffle(kets)
+        for j in kets[:4]:
+            if "gen_exception" in case:
+                return False
+            try:
+                prod = objs[o] @ objs[j]
+                if blockless(prod) or max(prod.get_bond_dimensions()) > maxD:
+                    continue
+                kk = key_of(prod)
+            except Exception:
+                continue
+            bras = [b for b in ids if keys[b] == kk and not blockless(objs[b])]
+            if not bras or rng.random() < 0.2:
+                b = try_step({"f": "matmul", "a": [o, j], "opr": True})
+                if b is None:
+                    continue
+                ids.append(b)
+            else:
+                b = pick(rng, bras)
+            oplist = [o]
+            if rng.random() < 0.4:
+                more = [o2 for o2 in opsn if keys[o2] == keys[o]]
+                oplist += [rng.choice(more) for _ in range(rng.choice([1, 2]))]
+            measured.update(oplist)
+            case["obs"].append({"o": "mpo", "bra": b, "ops": oplist, "ket": j, "bonds": rng.random() < 0.5,
+                                "aslist": len(oplist) > 1 or rng.random() < 0.2})
+            return True
+        return False
+
     for _ in range(nobs):
-        i = rng.choice(ids)
-        same = [j for j in ids if keys[j] == keys[i]]
-        j = rng.choice(same)
+        if "gen_exception" in case:
+            break
         r = rng.random()
-        if r < 0.35:
-            case["obs"].append({"o": "overlap", "bra": i, "ket": j, "bonds": rng.random() < 0.5})
-        else:
-            # operators that map ket -> something with the key of bra: choose op, then find bra among objects with the key of op@ket
-            opsc = [o for o in ids if objs[o].nr_phys == 2 and objs[o][0].s[3] == -objs[j][0].s[1]]
-            rng.shuffle(opsc)
-            done = False
-            for o in opsc[:4]:
-                try:
-                    kk = key_of(objs[o] @ objs[j])
-                except Exception:
-                    continue
-                bras = [b for b in ids if keys[b] == kk]
-                if not bras:
-                    continue
-                b = rng.choice(bras)
-                oplist = [o]
-                if rng.random() < 0.4:
-                    more = [o2 for o2 in ids if keys[o2] == keys[o]]
-                    oplist += [rng.choice(more) for _ in range(rng.choice([1, 2]))]
-                case["obs"].append({"o": "mpo", "bra": b, "ops": oplist, "ket": j, "bonds": rng.random() < 0.5,
-                                    "aslist": len(oplist) > 1 or rng.random() < 0.2})
-                done = True
-                break
-            if not done:
-                case["obs"].append({"o": "overlap", "bra": i, "ket": j, "bonds": False})
+        if r < 0.35 or not mpo_observable():
+            i = pick(rng, ids)
+            same = [j for j in ids if keys[j] == keys[i]]
+            case["obs"].append({"o": "overlap", "bra": i, "ket": rng.choice(same), "bonds": r < 0.35 and rng.random() < 0.5})
     for p in pbcs:
         kets = [j for j in ids if objs[j].nr_phys == 1 and objs[j][0].s[1] == -objs[p][0].s[3]]
         if kets:
@@ -534,7 +636,9 @@ def gen_case(rng, quick, flavour):
         i = rng.choice(ids)
         case["obs"].append({"o": "from_tensor", "x": i, "canonize": rng.choice(["first", "last", "balance"])})
     mm = [(k + nleaves) for k, st in enumerate(case["steps"]) if st["f"] == "matmul" and k + nleaves < len(objs)]
-    for k in mm[:2]:
+    if len(mm) > 2:
+        mm = rng.sample(mm, 2)
+    for k in mm:
         st = case["steps"][k - nleaves]
         case["obs"].append({"o": "zipper", "a": st["a"][0], "b": st["a"][1]})
         if rng.random() < 0.6:
@@ -1090,7 +1194,7 @@ def run(ctx):
         batch = []
         for _ in range(10):
             try:
-                c = gen_case(rng, ctx.quick, rng.choice(["mps", "mps", "mpo", "states"]))
+                c = gen_case(rng, ctx.quick, rng.choice(["mps", "mps", "mpo", "states", "sectors"]))
             except Exception as e:
                 ctx.count(f"gen:crash:{type(e).__name__}")
                 c = None
@@ -1113,7 +1217,7 @@ def search(ctx, broken, budget_s):
     from ..core import time_limit, CaseTimeout
     while time.time() - t0 < budget_s and not any(f.concrete for f in ctx.findings):
         try:
-            c = gen_case(ctx.rng, True, ctx.rng.choice(["mps", "mpo", "states"]))
+            c = gen_case(ctx.rng, True, ctx.rng.choice(["mps", "mpo", "states", "sectors"]))
             if c is None:
                 continue
             with time_limit(30):
